@@ -1154,6 +1154,21 @@ pub fn options_matrix(prop: &str, seed: u64, nprogs: usize, rep: &mut Report) {
                             c.cuts.sort();
                         }
                         let ok = check_case_hdr(&c, prop, rep);
+                        // "input that runs out first": the same case cut right behind the header, inside the preamble,
+                        // right behind it and one byte before the end
+                        if fi <= 1 && crate::oracle::size_in_effect(opt, *field).map_or(false, |n| n > 0) {
+                            let plen = c.payload().len();
+                            for keep in [0usize, 1, 4, 5, plen.saturating_sub(1)] {
+                                if keep < plen {
+                                    let mut ct = c.clone();
+                                    ct.truncate = Some(keep);
+                                    ct.trailing = String::new();
+                                    ct.cuts = vec![];
+                                    ct.origin = format!("options-matrix:{}:truncated{}", pi, keep);
+                                    check_case(&ct, prop, rep);
+                                }
+                            }
+                        }
                         if ok && rep.samples.len() < 8 && fi == 2 && api_name == "oneshot" && marker {
                             rep.sample(json!({"origin": c.origin, "true_len": t, "header_size_field": field, "opt": c.opt, "marker": marker, "api": api_name}));
                         }
@@ -1189,6 +1204,35 @@ pub fn check_case_hdr(c: &LzmaCase, prop: &str, rep: &mut Report) -> bool {
                     }
                 }
                 _ => {}
+            }
+            // the same through readers whose buffered window ends inside the header (every BufReader capacity up to
+            // the header length + 1, and a source that exposes one byte per refill)
+            if owns_clause(prop, "header-bytes") {
+                for cap in 1..=hl + 1 {
+                    let mut src = crate::d_reader::LogSrc::new(&data, if cap == hl + 1 { vec![1] } else { vec![] }, false);
+                    let took = if cap == hl + 1 {
+                        let r = crate::io::catch(|| LzmaParams::read_header(&mut src, &o).is_ok());
+                        if !matches!(r, crate::io::Caught::Done(true)) {
+                            continue;
+                        }
+                        src.pos
+                    } else {
+                        let mut br = std::io::BufReader::with_capacity(cap, &mut src);
+                        let r = crate::io::catch(|| LzmaParams::read_header(&mut br, &o).is_ok());
+                        if !matches!(r, crate::io::Caught::Done(true)) {
+                            continue;
+                        }
+                        let buffered = br.buffer().len();
+                        drop(br);
+                        src.pos - buffered
+                    };
+                    if took != hl {
+                        let mut cj = serde_json::to_value(c).unwrap();
+                        cj["kind"] = json!("lzma");
+                        rep.violation(prop, format!("reading the header under {:?} through a reader that exposes {} consumed {} bytes, the option defines {}", c.opt, if cap == hl + 1 { "one byte per refill".to_string() } else { format!("{} bytes per refill", cap) }, took, hl), cj);
+                        return false;
+                    }
+                }
             }
         }
     }
@@ -1348,16 +1392,23 @@ pub fn fab_probes(prop: &str, seed: u64, n: usize, rep: &mut Report) {
             Sym::Match { d: produced + 1, n: 2 + (i as u32 % 7) },
             Sym::Match { d: (dict as u64).max(produced) + 1, n: 3 },
             Sym::Match { d: 0xFFFF_FFF0, n: 2 },
+            // the largest distance a stream can name that is NOT the end marker (the marker is 2^32), and its neighbour
+            Sym::Match { d: 0xFFFF_FFFF, n: 2 + (i as u32 % 3) },
+            Sym::Match { d: 0xFFFF_FFFE, n: 273 },
         ];
         // either the stream ends with the copy (a literal after it would read its match byte at the same bad
         // distance and is dropped by enc_fab), or a legal match replaces rep0 first and the stream goes on
         let tail = if i % 2 == 0 { vec![Sym::Lit { b: b'a' }, Sym::Lit { b: b'b' }] } else { vec![Sym::Match { d: 1, n: 2 }, Sym::Lit { b: b'a' }, Sym::Lit { b: b'b' }] };
         for bad in bads {
             // ---- circular window: raw decoder (exact dict), one-shot and stream (header dict) ----
-            for (api_name, marker) in [("raw", true), ("raw", false), ("oneshot", true), ("stream", false), ("stream-incomplete", false), ("stream-incomplete", true)] {
+            // "-open": the bad copy is the LAST symbol, the encoder flushes right behind it, no marker and no size - the
+            // place where a decoder decides between "end of stream" and "one more symbol"
+            for (api_full, marker) in [("raw", true), ("raw", false), ("oneshot", true), ("stream", false), ("stream-incomplete", false), ("stream-incomplete", true), ("raw-open", false), ("oneshot-open", false), ("stream-open", false)] {
+                let open = api_full.ends_with("-open");
+                let api_name = api_full.trim_end_matches("-open");
                 let mut cs = CS::default();
                 let mut probs = Probs::default();
-                let mut t2 = tail.clone();
+                let mut t2 = if open { vec![] } else { tail.clone() };
                 if api_name == "stream-incomplete" {
                     // C15 lets the streaming decoder lag up to 64 input bytes behind, and with allow_incomplete
                     // finish() accepts what exists: the bad copy must lie well before the end of the input for its
@@ -1372,7 +1423,7 @@ pub fn fab_probes(prop: &str, seed: u64, n: usize, rep: &mut Report) {
                 }
                 // Eos is not "valid()"-filtered away: CS::valid(Eos) is true
                 let (payload, total, valid_out) = enc_fab(&mut cs, &mut probs, p, &prefix, bad, &t2);
-                let size = if marker { None } else { Some(total as u64) };
+                let size = if marker || open { None } else { Some(total as u64) };
                 let (data, o) = match api_name {
                     "raw" => {
                         let (o, _) = api::raw_lzma(&payload, p.lc, p.lp, p.pb, dict, size, None);
